@@ -125,8 +125,21 @@ def _integer_valued(system, cart, d):
         elif n in ("t", "tau", "x", "z") and v == 0:
             v = 1.0 if x >= 0 else -1.0
         out.append(v)
-    back = [float(x) for x in R.to_cartesian(system, tuple(out))]
-    return back + [float(x) for x in cart[d:]]
+    # the integer tuple must itself be a valid stored vector (a fixed point of store -> Cartesian -> store): e.g. tau = -3
+    # with |p| = 2.4 is not (a space-like vector has tau**2 <= p**2); fall back to small temporal values
+    cands = [tuple(out)]
+    if d == 4:
+        cands += [tuple(out[:3]) + (t_,) for t_ in (1.0, -1.0, 2.0)]
+    for cand in cands:
+        back = [float(x) for x in R.to_cartesian(system, cand)]
+        if any(x != x or abs(x) == float("inf") for x in back):
+            continue
+        if not R.representable(system, tuple(mpf(x) for x in back)):
+            continue
+        again = [float(x) for x in R.from_cartesian(system, tuple(mpf(x) for x in back))]
+        if all(abs(a_ - b_) < 1e-9 for a_, b_ in zip(again, cand)):
+            return back + [float(x) for x in cart[d:]]
+    return None
 
 
 def cells(tier):
@@ -311,6 +324,11 @@ def check_case(cell, elems, ctx):
             ok = opcheck.close(x, y, TOL, scale)
             if not ok and op.result == "angle":
                 ok = R.angle_close(x, y, TOL * scale)
+            if not ok and op.name == "deltaangle":
+                # acos is ill-conditioned at +-1: (anti)parallel operands agree in the cosine, and in the angle at sqrt(tol)
+                import mpmath
+
+                ok = opcheck.close(mpmath.cos(mpf(float(x))), mpmath.cos(mpf(float(y))), TOL, 1)
             if not ok:
                 fail("value", f"element {ipres}: array result {x!r} != object result {y!r}")
                 return
